@@ -77,12 +77,23 @@ class _SafeFormatter(string.Formatter):
 
     """
     def get_field(self, field_name, args, kwargs):
-        _, rest = _string.formatter_field_name_split(field_name)
+        first, rest = _string.formatter_field_name_split(field_name)
+        rest = list(rest)
         for is_attribute, name in rest:
             if is_attribute and name.startswith('_'):
                 raise ParseError(f"Cannot read protected and private member variables in a format string: "
                                  f"{{{field_name}}}", 0)
-        return super().get_field(field_name, args, kwargs)
+        # the traversal of string.Formatter.get_field, with get_member's refusal of reflective objects at every step
+        obj = self.get_value(first, args, kwargs)
+        for is_attribute, name in rest:
+            if is_attribute:
+                if issubclass(type(obj), _REFLECTIVE_TYPES):
+                    raise ParseError(f"Cannot read members of {type(obj).__name__} objects in a format string: "
+                                     f"{{{field_name}}}", 0)
+                obj = getattr(obj, name)
+            else:
+                obj = obj[name]
+        return obj, first
 
 
 _SAFE_FORMATTER = _SafeFormatter()
